@@ -8,6 +8,9 @@ import AdbProofs.Properties.C05Src
     * a packet whose ids do not match this transaction (`Txn.argsMatch`, with `allow_zeros`) is PARKED: the store becomes `Store.put` and nothing is returned to this reader;
     * a matching CLSE clears this stream's queue (`Store.clear`); any other matching packet leaves the store untouched;
     * a matching packet is returned iff its command is expected, as exactly `(cmd, arg0, arg1, data)`; an unexpected matching packet is dropped (returned to nobody, parked nowhere).
+    * the two store-draining loops of `read` (`read_drain_snippets`: `x = F; while x: <body>; x = F`, checked syntactically, as ONE iteration): the key looked up is the transaction's
+      `(remote_id, local_id)` through `find` / `find_allow_zeros`; nothing parked ⇒ "empty", `self` untouched; otherwise the FIRST parked packet of that key is removed and returned iff
+      expected, else the loop looks again — the model's `drainLoop` step (`drainStep`), for every store (`C06_src_read_drain0/1_sync/async`).
   Built from `C19_src_args_match`, `C19_src_put`, `C19_src_clear` — so the per-stream isolation theorems of C01 / C06 / C19, which are about `Store.put` / `Txn.argsMatch`, are about the
   routing the source performs now.  Only property theorems and non-vacuity examples live here.
 -/
@@ -90,5 +93,152 @@ example : Src.AdbDevice_io_read_route (.obj "_AdbIOManager" [("_packet_store", e
   have h := C06_src_read_route_sync "_AdbIOManager" "_AdbPacketStore" "_AdbTransactionInfo" [("_packet_store", encStore "_AdbPacketStore" [])] [("local_id", .int 1), ("remote_id", .int 7)]
     [] ⟨some 1, some 7, none, none, none⟩ [.WRTE, .CLSE] .WRTE 9 2 false [1] rfl rfl rfl
   exact h.trans rfl
+
+/-- one iteration of the model's `drainLoop` (Wire.lean), as a pure function of the store: nothing parked for this transaction / a parked packet that is expected (returned, removed) /
+    a parked packet that is not (removed, look again); `Store.get`'s error otherwise -/
+def drainStep (expected : List Cmd) (t : Txn) (az : Bool) (s : Store) : Except StoreErr (String × Option (Cmd × Nat × Nat × Bytes) × Store) :=
+  match (if az then s.findAllowZeros t.remoteId t.localId else s.find t.remoteId t.localId) with
+  | none => .ok ("empty", none, s)
+  | some k =>
+    match s.get (some k.1) (some k.2) with
+    | .error e => .error e
+    | .ok (p, s') => if expected.contains p.1 then .ok ("return", some p, s') else .ok ("again", none, s')
+
+def encDrain (mcls scls : String) (mfs : List (String × Py.Val)) (_s : Store) : Except StoreErr (String × Option (Cmd × Nat × Nat × Bytes) × Store) → Py.M Py.Val
+  | .ok (tag, r, s') => .ok (.tuple [.tuple [.str tag, encRet r], if tag = "empty" then .obj mcls mfs else .obj mcls (asetS "_packet_store" (encStore scls s') mfs)])
+  | .error .typeError => .error .typeError
+  | .error .keyError => .error .keyError
+  | .error .queueEmpty => .error .queueEmpty
+
+theorem Py.truthy_encOptKey (k : Option (Nat × Nat)) : Py.truthy (encOptKey k) = .ok k.isSome := by
+  cases k with
+  | none => rfl
+  | some p => obtain ⟨a, b⟩ := p; rfl
+
+theorem Py.getItem_pair0 (a b : Py.Val) : Py.getItem (.tuple [a, b]) (.int 0) = .ok a := rfl
+theorem Py.getItem_pair1 (a b : Py.Val) : Py.getItem (.tuple [a, b]) (.int 1) = .ok b := rfl
+
+/-- the part of a drain step after the lookup found the key `(k0, k1)` -/
+theorem drain_tail (scls : String) (s : Store) (expected : List Cmd) (k0 k1 : Nat) (mcls : String) (mfs : List (String × Py.Val)) :
+    (do
+      let t14 ← Src.AdbPacketStore_get (encStore scls s) (.int k0) (.int k1)
+      let t15 ← unpackN t14.fst 4
+      let t16 ← inV (nth t15 0) (encCmds expected)
+      if (← Py.truthy t16) = true then
+          (Except.ok (Py.Val.tuple [.tuple [.str "return", .tuple [nth t15 0, nth t15 1, nth t15 2, nth t15 3]], .obj mcls (asetS "_packet_store" t14.snd mfs)]) : Py.M Py.Val)
+        else
+          Except.ok (Py.Val.tuple [.tuple [.str "again", .none], .obj mcls (asetS "_packet_store" t14.snd mfs)]))
+      = encDrain mcls scls mfs s (match s.get (some k0) (some k1) with
+          | .error e => .error e
+          | .ok (p, s') => if expected.contains p.1 then .ok ("return", some p, s') else .ok ("again", none, s')) := by
+  have hg := C19_src_get scls s (some k0) (some k1)
+  simp only [encOptNat] at hg
+  rw [hg]
+  cases hget : s.get (some k0) (some k1) with
+  | error e => cases e <;> simp [encDrain, pysimp]
+  | ok r =>
+    obtain ⟨⟨c, x, y, d⟩, s'⟩ := r
+    have hb : c.bytes = c.idBytes := rfl
+    by_cases he : c ∈ expected <;>
+      simp [encDrain, encRet, pysimp, Py.unpackN, Py.nth, Py.inV, Py.contains, encCmds, hb, anyEq_idBytes, he]
+
+/-- One iteration of the first store-draining loop of `read` (sync class; the loop before the timer starts): for every store, transaction, expected list and `allow_zeros` it looks the
+    transaction's key up (`find` / `find_allow_zeros` on `(remote_id, local_id)`), and — exactly like the model's `drainLoop` step — reports "empty" with `self` untouched, or removes the
+    first parked packet of that key and returns it iff it is expected ("return"), else looks again ("again"); `Store.get`'s errors are raised as they are. -/
+theorem C06_src_read_drain0_sync (mcls scls icls : String) (mfs ifs : List (String × Py.Val)) (s : Store) (t : Txn) (expected : List Cmd) (az : Bool)
+    (hs : alookupS "_packet_store" mfs = some (encStore scls s))
+    (hl : alookupS "local_id" ifs = some (encOptNat t.localId)) (hr : alookupS "remote_id" ifs = some (encOptNat t.remoteId)) :
+    Src.AdbDevice_io_read_drain0 (.obj mcls mfs) (encCmds expected) (.obj icls ifs) (.bool az) = encDrain mcls scls mfs s (drainStep expected t az s) := by
+  have hf := C19_src_find scls s t.remoteId t.localId
+  have hfz := C19_src_find_allow_zeros scls s t.remoteId t.localId
+  cases az
+  · simp only [Src.AdbDevice_io_read_drain0, pysimp, hs, hl, hr, hf, Bool.not_false, if_true, ite_true, drainStep, Bool.false_eq_true, if_false, ite_false]
+    cases hk : Store.find s t.remoteId t.localId with
+    | none => simp [encOptKey, pysimp, encDrain, encRet]
+    | some k =>
+      obtain ⟨k0, k1⟩ := k
+      simp only [encOptKey, Py.truthy_encOptKey, pysimp, Option.isSome, if_true, ite_true, Py.getPath_attr _ _ _ _ hs, Py.getItem_pair0, Py.getItem_pair1]
+      exact drain_tail scls s expected k0 k1 mcls mfs
+  · simp only [Src.AdbDevice_io_read_drain0, pysimp, hs, hl, hr, hfz, Bool.not_true, if_true, ite_true, drainStep, Bool.false_eq_true, if_false, ite_false]
+    cases hk : Store.findAllowZeros s t.remoteId t.localId with
+    | none => simp [encOptKey, pysimp, encDrain, encRet]
+    | some k =>
+      obtain ⟨k0, k1⟩ := k
+      simp only [encOptKey, Py.truthy_encOptKey, pysimp, Option.isSome, if_true, ite_true, Py.getPath_attr _ _ _ _ hs, Py.getItem_pair0, Py.getItem_pair1]
+      exact drain_tail scls s expected k0 k1 mcls mfs
+
+/-- The second store-draining loop of `read` (sync class; the one repeated under the transport lock before every device read): the same statement. -/
+theorem C06_src_read_drain1_sync (mcls scls icls : String) (mfs ifs : List (String × Py.Val)) (s : Store) (t : Txn) (expected : List Cmd) (az : Bool)
+    (hs : alookupS "_packet_store" mfs = some (encStore scls s))
+    (hl : alookupS "local_id" ifs = some (encOptNat t.localId)) (hr : alookupS "remote_id" ifs = some (encOptNat t.remoteId)) :
+    Src.AdbDevice_io_read_drain1 (.obj mcls mfs) (encCmds expected) (.obj icls ifs) (.bool az) = encDrain mcls scls mfs s (drainStep expected t az s) := by
+  have hf := C19_src_find scls s t.remoteId t.localId
+  have hfz := C19_src_find_allow_zeros scls s t.remoteId t.localId
+  cases az
+  · simp only [Src.AdbDevice_io_read_drain1, pysimp, hs, hl, hr, hf, Bool.not_false, if_true, ite_true, drainStep, Bool.false_eq_true, if_false, ite_false]
+    cases hk : Store.find s t.remoteId t.localId with
+    | none => simp [encOptKey, pysimp, encDrain, encRet]
+    | some k =>
+      obtain ⟨k0, k1⟩ := k
+      simp only [encOptKey, Py.truthy_encOptKey, pysimp, Option.isSome, if_true, ite_true, Py.getPath_attr _ _ _ _ hs, Py.getItem_pair0, Py.getItem_pair1]
+      exact drain_tail scls s expected k0 k1 mcls mfs
+  · simp only [Src.AdbDevice_io_read_drain1, pysimp, hs, hl, hr, hfz, Bool.not_true, if_true, ite_true, drainStep, Bool.false_eq_true, if_false, ite_false]
+    cases hk : Store.findAllowZeros s t.remoteId t.localId with
+    | none => simp [encOptKey, pysimp, encDrain, encRet]
+    | some k =>
+      obtain ⟨k0, k1⟩ := k
+      simp only [encOptKey, Py.truthy_encOptKey, pysimp, Option.isSome, if_true, ite_true, Py.getPath_attr _ _ _ _ hs, Py.getItem_pair0, Py.getItem_pair1]
+      exact drain_tail scls s expected k0 k1 mcls mfs
+
+/-- First store-draining loop, async twin: the same statement. -/
+theorem C06_src_read_drain0_async (mcls scls icls : String) (mfs ifs : List (String × Py.Val)) (s : Store) (t : Txn) (expected : List Cmd) (az : Bool)
+    (hs : alookupS "_packet_store" mfs = some (encStore scls s))
+    (hl : alookupS "local_id" ifs = some (encOptNat t.localId)) (hr : alookupS "remote_id" ifs = some (encOptNat t.remoteId)) :
+    Src.AdbDeviceAsync_io_read_drain0 (.obj mcls mfs) (encCmds expected) (.obj icls ifs) (.bool az) = encDrain mcls scls mfs s (drainStep expected t az s) := by
+  have hf := C19_src_find scls s t.remoteId t.localId
+  have hfz := C19_src_find_allow_zeros scls s t.remoteId t.localId
+  cases az
+  · simp only [Src.AdbDeviceAsync_io_read_drain0, pysimp, hs, hl, hr, hf, Bool.not_false, if_true, ite_true, drainStep, Bool.false_eq_true, if_false, ite_false]
+    cases hk : Store.find s t.remoteId t.localId with
+    | none => simp [encOptKey, pysimp, encDrain, encRet]
+    | some k =>
+      obtain ⟨k0, k1⟩ := k
+      simp only [encOptKey, Py.truthy_encOptKey, pysimp, Option.isSome, if_true, ite_true, Py.getPath_attr _ _ _ _ hs, Py.getItem_pair0, Py.getItem_pair1]
+      exact drain_tail scls s expected k0 k1 mcls mfs
+  · simp only [Src.AdbDeviceAsync_io_read_drain0, pysimp, hs, hl, hr, hfz, Bool.not_true, if_true, ite_true, drainStep, Bool.false_eq_true, if_false, ite_false]
+    cases hk : Store.findAllowZeros s t.remoteId t.localId with
+    | none => simp [encOptKey, pysimp, encDrain, encRet]
+    | some k =>
+      obtain ⟨k0, k1⟩ := k
+      simp only [encOptKey, Py.truthy_encOptKey, pysimp, Option.isSome, if_true, ite_true, Py.getPath_attr _ _ _ _ hs, Py.getItem_pair0, Py.getItem_pair1]
+      exact drain_tail scls s expected k0 k1 mcls mfs
+
+/-- Second store-draining loop, async twin: the same statement. -/
+theorem C06_src_read_drain1_async (mcls scls icls : String) (mfs ifs : List (String × Py.Val)) (s : Store) (t : Txn) (expected : List Cmd) (az : Bool)
+    (hs : alookupS "_packet_store" mfs = some (encStore scls s))
+    (hl : alookupS "local_id" ifs = some (encOptNat t.localId)) (hr : alookupS "remote_id" ifs = some (encOptNat t.remoteId)) :
+    Src.AdbDeviceAsync_io_read_drain1 (.obj mcls mfs) (encCmds expected) (.obj icls ifs) (.bool az) = encDrain mcls scls mfs s (drainStep expected t az s) := by
+  have hf := C19_src_find scls s t.remoteId t.localId
+  have hfz := C19_src_find_allow_zeros scls s t.remoteId t.localId
+  cases az
+  · simp only [Src.AdbDeviceAsync_io_read_drain1, pysimp, hs, hl, hr, hf, Bool.not_false, if_true, ite_true, drainStep, Bool.false_eq_true, if_false, ite_false]
+    cases hk : Store.find s t.remoteId t.localId with
+    | none => simp [encOptKey, pysimp, encDrain, encRet]
+    | some k =>
+      obtain ⟨k0, k1⟩ := k
+      simp only [encOptKey, Py.truthy_encOptKey, pysimp, Option.isSome, if_true, ite_true, Py.getPath_attr _ _ _ _ hs, Py.getItem_pair0, Py.getItem_pair1]
+      exact drain_tail scls s expected k0 k1 mcls mfs
+  · simp only [Src.AdbDeviceAsync_io_read_drain1, pysimp, hs, hl, hr, hfz, Bool.not_true, if_true, ite_true, drainStep, Bool.false_eq_true, if_false, ite_false]
+    cases hk : Store.findAllowZeros s t.remoteId t.localId with
+    | none => simp [encOptKey, pysimp, encDrain, encRet]
+    | some k =>
+      obtain ⟨k0, k1⟩ := k
+      simp only [encOptKey, Py.truthy_encOptKey, pysimp, Option.isSome, if_true, ite_true, Py.getPath_attr _ _ _ _ hs, Py.getItem_pair0, Py.getItem_pair1]
+      exact drain_tail scls s expected k0 k1 mcls mfs
+
+/-! ### Non-vacuity: with WRTE [1] then CLSE parked for (7, 1) and the reader expecting CLSE only, the first step removes the WRTE and looks again -/
+example : ∃ s', drainStep [.CLSE] ⟨some 1, some 7, none, none, none⟩ false (Store.put (Store.put [] 7 1 .WRTE [1]) 7 1 .CLSE []) = .ok ("again", none, s')
+    ∧ drainStep [.CLSE] ⟨some 1, some 7, none, none, none⟩ false s' = .ok ("return", some (.CLSE, 7, 1, []), []) := ⟨_, rfl, rfl⟩
+example : drainStep [.CLSE] ⟨some 1, some 7, none, none, none⟩ false [] = .ok ("empty", none, []) := rfl
 
 end Adb
